@@ -58,9 +58,9 @@ func forEachStdCase(w *fw.W, o stdOpts, fn func(cs *world.Case, family string)) 
 		shapes = []gen.Shape{{}, {Static: true}, {MemWords: 3, RData: true}}
 	}
 	// IM
-	for _, f := range o.Forks {
-		for _, spec := range specs {
-			for _, sh := range shapes {
+	for _, spec := range specs {
+		for _, sh := range shapes {
+			for _, f := range o.Forks {
 				if w.Expired() {
 					return false
 				}
@@ -83,28 +83,30 @@ func forEachStdCase(w *fw.W, o stdOpts, fn func(cs *world.Case, family string)) 
 	}
 	// SEQ
 	alpha := gen.SeqAlphabet()
-	for _, f := range o.Forks {
-		f := f
-		ok := true
-		gen.ForEachSeq(len(alpha), o.SeqL, func(seq []int) {
-			if !ok || !w.Mine() {
-				return
+	for l := 0; l <= o.SeqL; l++ {
+		for _, f := range o.Forks {
+			f := f
+			ok := true
+			gen.ForEachSeqLen(len(alpha), l, func(seq []int) {
+				if !ok || !w.Mine() {
+					return
+				}
+				if w.Expired() {
+					ok = false
+					return
+				}
+				code := gen.BuildSeq(f, alpha, seq, o.SeqL)
+				cs := gen.StdCase(f, code, "call", o.Gas)
+				cs.Note = "SEQ " + seqName(alpha, seq)
+				fn(cs, "SEQ")
+				// the same program inside a static frame
+				cs = gen.StdCase(f, code, "staticcall", o.Gas)
+				cs.Note = "SEQ static " + seqName(alpha, seq)
+				fn(cs, "SEQ")
+			})
+			if !ok {
+				return false
 			}
-			if w.Expired() {
-				ok = false
-				return
-			}
-			code := gen.BuildSeq(f, alpha, seq, o.SeqL)
-			cs := gen.StdCase(f, code, "call", o.Gas)
-			cs.Note = "SEQ " + seqName(alpha, seq)
-			fn(cs, "SEQ")
-			// the same program inside a static frame
-			cs = gen.StdCase(f, code, "staticcall", o.Gas)
-			cs.Note = "SEQ static " + seqName(alpha, seq)
-			fn(cs, "SEQ")
-		})
-		if !ok {
-			return false
 		}
 	}
 	// ENTRY: short sequences through all six entry points
